@@ -27,7 +27,8 @@ LEVEL = "exploration"
 TECHNIQUE = (
     "exhaustive enumeration of the (device, revision, memory type) tuples of the device database (own YAML walk) with fixed "
     "payload sets and every initial offset + Hypothesis-generated segment subsets / payload sizes / initial offsets; the merged "
-    "image is compared byte for byte with an independent layout reader and parsed back"
+    "image is compared byte for byte with an independent layout reader and parsed back; segments are supplied as binaries and, where "
+    "the merge accepts it, as the configuration file of the block (FCB, XMCD, MBI, AHAB)"
 )
 LEVEL_TEXT = (
     "exploration with the (device, revision, memory type) domain enumerated completely: for every tuple a full image, an "
